@@ -55,6 +55,12 @@ CHECKS.update({
    text='Field-level part of C10: a numeric field reads only its own bytes at (offset, length), writes only those bytes, a bit field only ORs its owned bits into an already existing byte; proved for all offsets and type shapes. The offset bookkeeping of DataFieldSet (getLength, both read variants, write) is checked on the extracted loops for every set of up to 8 fields (12 in thorough): all four visit each field of the part exactly once at the same offset, fields follow each other without gaps, only a bit field shares the byte of the preceding bit field (and does when that byte is incomplete and it starts at another bit), the length is the number of bytes spanned. This part is a bounded stand-in and not counted as proved.',
    note=TB + 'Field-set part bounded by the number of fields (8 quick, 12 thorough; MAX_POS is 24); SingleDataField::read/write are stubs recording their offset (their locality is the per-field part). Not pinned down: whether a byte stays open after two consecutive bit fields with the same first bit (the code closes it). Date/time/string types only via their length.',
    ref='DESIGN.md 5 (C10)'),
+ 'C09': dict(
+   technique='bounded CBMC check (harness-enforced contracts) of the extracted Message::prepareMaster / prepareMasterPart / prepareSlave / storeLastData / checkId and ChainedMessage::checkId / prepareMasterPart / storeLastData / combineLastParts + SymbolString::compareTo against a byte-level telegram specification, DataField::write as a stub',
+   level='other',
+   text='BOUNDED, partial: for every definition with up to 6 further id bytes and up to 12 encoded data bytes the built telegram is proved to be QQ ZZ PB SB NN id data with NN = number of following bytes, to be built whenever the definition is active and the field input accepted, to pass the exact id check of its definition and to be the stored last master data; prepareSlave/storeLastData store exactly the given parts and move the change time iff the data changed. For chains of 2..3 parts: part i carries the id of part i and the bytes [sum of lengths before i, +length i) of the encoded data, is identified back as that part and stored; storing a received part (any arrival order) files it under the part whose id it carries, and once all parts are present in time the joined master/slave value is the concatenation of the part data in part order (checked per byte: no loss, duplication, reordering), NN adjusted. Definition parsing (Message::create incl. the data length limit) and decoding of field values (DataFieldSet::read on the stored data; see C05/C10) are not part of this check.',
+   note=TB + 'bounded by the model capacities (ids <= 6 further bytes, data <= 12 bytes, chains <= 3 parts with <= 3 data / 4 slave bytes per part; quick tier 2 parts); DataField::write is a stub appending a ghost byte array at the data offset it is given (growing with zeros like SymbolString::dataAt); chain well-formedness (equal id lengths, common prefix shorter than the ids, one length per part) is the assumed result of Message::create; stored parts with an arrival time carry the complete id (invariant, shown preserved).',
+   ref='DESIGN.md I.2 (C09)'),
  'C20': dict(
    technique='CBMC safety obligations (bounds, pointer, shift distance, signed overflow, division by zero, unwinding) on every extracted function under arbitrary-input preconditions',
    level='proof',
